@@ -96,6 +96,8 @@ class CustomOperatorAdd(OperatorAdd):
     def operate_binary(self, tokens):
         left, right = tokens.get_left(), tokens.get_right()
         if not left.baseunits.nodim:
+            if left.baseunits.dimensions!=right.baseunits.dimensions: # reciprocal units convert, but must not be added
+                raise Exception("Unsupported conversion between units:", left.units(), right.units())
             right.to(left.baseunits)
         tokens.put_left(left + right)
 
@@ -121,6 +123,8 @@ class CustomOperatorSub(OperatorSub):
     def operate_binary(self, tokens):
         left, right = tokens.get_left(), tokens.get_right()
         if not left.baseunits.nodim:
+            if left.baseunits.dimensions!=right.baseunits.dimensions: # reciprocal units convert, but must not be added
+                raise Exception("Unsupported conversion between units:", left.units(), right.units())
             right.to(left.baseunits)
         tokens.put_left(left - right)
 
